@@ -33,6 +33,9 @@ namespace hgraph::log
         // Configuration-time state (a shared_ptr here is sanctioned: the
         // per-tick path only ever borrows the raw pointer via LoggerView).
         std::shared_ptr<spdlog::logger> g_logger;
+        // Executors may be created on several threads at once; the lazy default
+        // must be installed exactly once (spdlog rejects a second registration).
+        std::mutex g_logger_mutex;
 
         std::shared_ptr<spdlog::logger> make_default_logger()
         {
@@ -48,17 +51,20 @@ namespace hgraph::log
 
     std::shared_ptr<spdlog::logger> shared_logger()
     {
+        std::lock_guard<std::mutex> lock{g_logger_mutex};
         if (g_logger == nullptr) { g_logger = make_default_logger(); }
         return g_logger;
     }
 
     void set_logger(std::shared_ptr<spdlog::logger> logger)
     {
+        std::lock_guard<std::mutex> lock{g_logger_mutex};
         g_logger = logger != nullptr ? std::move(logger) : make_default_logger();
     }
 
     void reset_logger()
     {
+        std::lock_guard<std::mutex> lock{g_logger_mutex};
         // Drop from the spdlog registry too — make_default_logger() would
         // otherwise hand back the same instance with its stale sinks.
         spdlog::drop("hgraph");
